@@ -99,14 +99,20 @@ class Link:
             cur.append(itsgen.tdh(trigger_type=ttype, internal=internal, no_data=nd, continuation=0, bc=bc, orbit=self.orbit))
             if not nd:
                 data = self.frame_words(rng.choice([0, rng.randrange(256), rng.randrange(256), 255]))
-                if len(data) > 3 and rng.random() < 0.35:
-                    k = rng.randrange(1, len(data))
-                    cur += data[:k]
-                    cur.append(itsgen.tdt(packet_done=0))
-                    pages.append(cur)
-                    cur = [itsgen.ihw(self.lanes_mask),
-                           itsgen.tdh(trigger_type=ttype, internal=internal, no_data=0, continuation=1, bc=bc, orbit=self.orbit)]
-                    cur += data[k:]
+                if len(data) > 3 and rng.random() < 0.4:
+                    # the packet is continued over 2..5 pages: TDT(packet_done=0) closes a page, the next one opens with
+                    # IHW + TDH(continuation=1, same trigger) and carries on with the data
+                    ncuts = min(len(data) - 1, rng.choice([1, 1, 2, 3, 4]))
+                    cuts = sorted(rng.sample(range(1, len(data)), ncuts))
+                    prev = 0
+                    for k in cuts:
+                        cur += data[prev:k]
+                        cur.append(itsgen.tdt(packet_done=0))
+                        pages.append(cur)
+                        cur = [itsgen.ihw(self.lanes_mask),
+                               itsgen.tdh(trigger_type=ttype, internal=internal, no_data=0, continuation=1, bc=bc, orbit=self.orbit)]
+                        prev = k
+                    cur += data[prev:]
                 else:
                     cur += data
                 cur.append(itsgen.tdt(packet_done=1))
